@@ -1,5 +1,7 @@
 import Pi2.MM.AstThm
 import Pi2.MM.SliceThm
+import Pi2.MM.SliceVerify
+import Pi2.MM.SliceVerifyEx
 /-!
 # C17 — Metamath databases survive printing, re-parsing and slicing
 
@@ -15,9 +17,14 @@ Models: `Pi2/MM/Ast.lean` (lark grammar + `ASTTransformer`, `Encoder`) and `Pi2/
   (`slice_declares`); (c) contains the statement of every label the compressed proof cites
   (`slice_labels_present`); (d) keeps the floating hypotheses in their original order
   (`slice_floats_in_order`, for databases whose floating labels are not reused).
-* NOT a theorem: "the proof still verifies against the slice".  It follows informally from (a)–(d)
-  (verification depends only on the lemma's frame and on the cited assertions), and is decided on every
-  generated slice by an independent Metamath verifier in the check (`vlib/props/c17.py`).
+* `slice_verifies` (the property itself): for a well-formed database (`MM.WellFormedDb`: unique labels, no `$e` outside
+  a block, the AST consistent with the `$v` declarations, top-level `$d` before the assertions they concern), if the
+  reference Metamath verifier `MM.verifyLemma` (`Pi2/MM/Verify.lean`, validated against the independent Python verifier
+  by `vlib/validate_verify.py`) accepts the proof of a lemma in the database, it accepts it in the lemma's slice.
+  No hypothesis on `syntax_dependencies` is needed.  `slice_verifies_needs_disjFirst`: without the hypothesis on
+  top-level `$d` statements the property is FALSE (a `$d x y` after an axiom over `x`, `y`: the slicer moves it to the
+  front of the slice and the axiom gains a disjoint-variable condition).  The check (`vlib/props/c17.py`) still runs
+  an independent verifier on every generated slice.
 -/
 namespace C17
 open MM
@@ -91,4 +98,43 @@ theorem slice_keeps_disjointness {cut : List (String × MStmt)} {disjoints : Lis
     simp only [MM.disjStmtsOf, List.mem_map, List.mem_filter]
     exact ⟨(a, b), ⟨hab, by simp [ha, hb]⟩, rfl⟩
 
+/-- **the slice is self-contained**: the lemma's proof, which verifies against the database, verifies against the slice -/
+theorem slice_verifies {db : MDb} {deps : List (String × List String)} {incl excl : List String}
+    {out : List (String × MDb)} {l : String} {sl : MDb} (hwf : WellFormedDb db)
+    (h : sliceDatabase db deps incl excl = some out) (hm : (l, sl) ∈ out)
+    (hv : verifyLemma db l = true) : verifyLemma sl l = true :=
+  MM.slice_verifies hwf h hm hv
+
+/-- the same when the whole database verifies (`verifyDb`: every `$p`) -/
+theorem slice_verifies_of_verifyDb {db : MDb} {deps : List (String × List String)} {incl excl : List String}
+    {out : List (String × MDb)} {l : String} {sl : MDb} (hwf : WellFormedDb db)
+    (h : sliceDatabase db deps incl excl = some out) (hm : (l, sl) ∈ out)
+    (hv : verifyDb db = true) : verifyLemma sl l = true :=
+  MM.slice_verifies_of_verifyDb hwf h hm hv
+
+/-- `WellFormedDb` is decidable: `wellFormedDbB` computes it (driver command `mmwf`) -/
+theorem wellFormedDb_of_decide {db : MDb} (h : wellFormedDbB db = true) : WellFormedDb db :=
+  MM.wellFormedDb_of_decide h
+
+/-- non-vacuity: a database with top-level `$d`, rules with `$e` in blocks, two lemmas (the second cites the first)
+meets the hypotheses, both lemmas verify, and so do their slices -/
+theorem slice_verifies_nonvacuous :
+    WellFormedDb SliceEx.exDb ∧
+    sliceDatabase SliceEx.exDb [] ["th1", "th2"] [] = some [("th1", SliceEx.exSl1), ("th2", SliceEx.exSl2)] ∧
+    verifyLemma SliceEx.exDb "th2" = true ∧ verifyLemma SliceEx.exSl2 "th2" = true :=
+  ⟨SliceEx.exDb_wf, SliceEx.exDb_slices, SliceEx.exDb_th2, SliceEx.exSl2_verifies⟩
+
+/-- the hypothesis `WellFormedDb.disjFirst` cannot be dropped: a database meeting all the other hypotheses whose
+lemma verifies and whose slice does not -/
+theorem slice_verifies_needs_disjFirst : ∃ (db : MDb) (l : String) (sl : MDb),
+    (allLabelsL db).Nodup ∧ ")" ∉ allLabelsL db ∧ (∀ s ∈ db, isEssStmt s = false) ∧
+    (∀ x ∈ flatL db, leafOk (dbVars db) x = true) ∧ (∀ c ∈ defaultConstants, c ∉ dbVars db) ∧
+    sliceDatabase db [] [l] [] = some [(l, sl)] ∧ verifyDb db = true ∧ verifyLemma db l = true ∧
+    verifyLemma sl l = false :=
+  SliceEx.slice_verifies_needs_disjFirst
+
 end C17
+
+#print axioms C17.slice_verifies
+#print axioms C17.slice_verifies_nonvacuous
+#print axioms C17.slice_verifies_needs_disjFirst
